@@ -59,10 +59,12 @@ def realisations(kind, v):
     """model object kind -> [(source_kind, encoded argument)]"""
     s = str(v)
     if kind == "pylong":
-        out = [("int", calls.ienc(v)), ("int-subclass", {"py": "MyInt(%s)" % s}), ("int-subclass-overriding", {"py": "MyIntOv(%s)" % s})]
+        out = [("int", calls.ienc(v)), ("int-subclass", {"py": "MyInt(%s)" % s})]
         if v in (0, 1):
             out.append(("bool", bool(v)))
         return out
+    if kind == "sublong_ov":
+        return [("int-subclass-overriding", {"py": "MyIntOv(%s)" % s})]
     if kind == "index_only":
         return [("__index__-only", {"py": "IdxOnly(%s)" % s})]
     if kind == "nbint_only":
@@ -130,6 +132,22 @@ def obs_class(want, got):
     if isinstance(want, str):
         return "accepted"
     return "wrong-value"
+
+
+def judge(want, got):
+    """None when the observation is the expected one, else the class of the wrong observation"""
+    return None if got == want else obs_class(want, got)
+
+
+def corrupt(want):
+    """binding demonstration: a different, still well-formed expectation"""
+    if isinstance(want, str):
+        return "E:OverflowError" if want != "E:OverflowError" else "E:TypeError"
+    if isinstance(want, list):
+        return want[:2] + [corrupt(want[2])]
+    if isinstance(want, dict):
+        return {"big": str(int(want["big"]) + 1)}
+    return want + 1
 
 
 def build_cases(pub, types, rng, tier):
@@ -215,7 +233,7 @@ def build_cases(pub, types, rng, tier):
             for v in wide:
                 frompy(config, t, "pylong", v, "python-oracle", None, None)
             for v in (1 << 150, -(1 << 150), hi + 1, lo - 1, hi, lo):
-                for kind in ("index_only", "nbint_only", "both_same", "both_differ", "strlike"):
+                for kind in ("sublong_ov", "index_only", "nbint_only", "both_same", "both_differ", "strlike"):
                     frompy(config, t, kind, v, "python-oracle", None, None)
             rnd = []
             for _ in range(nrand):
@@ -228,7 +246,7 @@ def build_cases(pub, types, rng, tier):
                 if lo <= v <= hi:
                     topy(config, t, v, "python-oracle", None)
             for v in rnd[:10]:
-                for kind in ("index_only", "both_same"):
+                for kind in ("sublong_ov", "index_only", "both_same"):
                     frompy(config, t, kind, v, "python-oracle", None, None)
             # fractional / huge floats, non-integral Decimal / Fraction: not integers -> TypeError by the reference
             for source_kind, arg in [("float", calls.fenc(1.5)), ("float", calls.fenc(-1.5)), ("float", calls.fenc(0.5)), ("float", calls.fenc(-0.0)),
@@ -273,25 +291,37 @@ def run(tier, seed):
     if tier != "quick":
         jobs += [("deep", "IntConv_deep", False), ("sweep", "IntConv_sweep", False)]
     src = L.gen_source()
-    with concurrent.futures.ThreadPoolExecutor(max_workers=len(jobs) + 1) as ex:
-        def tlc_job(i, cfg, cv):
-            time.sleep(0.2 * i)    # core.tlc derives its metadir name from the clock
-            return core.tlc("IntConv", cfg=cfg, workers=6 if tier == "quick" else 8, timeout=600 if tier == "quick" else 3000, coverage=cv)
-        futs = {name: ex.submit(tlc_job, i, cfg, cv) for i, (name, cfg, cv) in enumerate(jobs)}
-        fb = ex.submit(core.build_many, [core.BuildSpec("c05_" + name, src, cflags=fl) for name, fl, _ in CONFIGS])
-        tl = {name: f.result() for name, f in futs.items()}
-        builds = fb.result()
-    _phase(t0, "TLC + builds done: " + ", ".join("%s %.0fs" % (n, r.wall) for n, r in tl.items()))
-    for name, r in tl.items():
-        cov["tlc"].append(dict(r.summary(), config=name, violation=r.violation))
-        if name == "refute":
-            if r.violation != "NeverDeviates":
-                core.die("IntConv_refute: TLC did not refute NeverDeviates (%r): the transcription no longer exhibits the nb_int deviation\n%s" % (r.violation, r.out[-1500:]))
-        elif not r.ok:
-            core.die("TLC %s failed: violation=%r\n%s" % (name, r.violation, r.out[-3000:]))
-    missing = [b for b in BRANCHES if tl["cov"].coverage.get("A_" + b, (0, 0))[1] == 0]
-    if missing:
-        core.die("vacuity: branches of the transcription never taken in IntConv_cov: %s" % missing)
+    ex = concurrent.futures.ThreadPoolExecutor(max_workers=len(jobs) + 1)
+
+    def tlc_job(i, cfg, cv):
+        time.sleep(0.2 * i)    # core.tlc derives its metadir name from the clock
+        return core.tlc("IntConv", cfg=cfg, workers=6 if tier == "quick" else 8, timeout=900 if tier == "quick" else 3000, coverage=cv)
+    futs = {name: ex.submit(tlc_job, i, cfg, cv) for i, (name, cfg, cv) in enumerate(jobs)}
+    fb = ex.submit(core.build_many, [core.BuildSpec("c05_" + name, src, cflags=fl) for name, fl, _ in CONFIGS])
+    tl = {}
+
+    def collect(names):
+        for name in names:
+            r = tl[name] = futs[name].result()
+            _phase(t0, "TLC %s: %d states, %.0fs" % (name, r.generated, r.wall))
+            cov["tlc"].append(dict(r.summary(), config=name, violation=r.violation))
+            if name == "refute":
+                if r.violation != "NeverDeviates":
+                    core.die("IntConv_refute: TLC did not refute NeverDeviates (%r): the transcription no longer exhibits the nb_int deviation\n%s" % (r.violation, r.out[-1500:]))
+            elif not r.ok:
+                core.die("TLC %s failed: violation=%r\n%s" % (name, r.violation, r.out[-3000:]))
+
+    def finish_tlc():
+        collect([n for n, _, _ in jobs if n not in tl])
+        ex.shutdown()
+        missing = [b for b in BRANCHES if tl["cov"].coverage.get("A_" + b, (0, 0))[1] == 0]
+        if missing:
+            core.die("vacuity: branches of the transcription never taken in IntConv_cov: %s" % missing)
+
+    # the published cases and the builds are needed first; the other model-checking runs finish during the replay
+    collect(["pub"])
+    builds = fb.result()
+    _phase(t0, "builds done")
     pub = tl["pub"].printed
     if len(pub) < 5000:
         core.die("IntConv_pub published only %d cases" % len(pub))
@@ -301,6 +331,7 @@ def run(tier, seed):
         if not b.ok:
             rep.disagree({"part": "build", "config": b.name, "stage": b.stage}, "build-failed", {"errors": (b.errors or "")[-3000:]})
     if rep.n_violations():
+        finish_tlc()
         rc = rep.finish()
         core.write_evidence(PROP, tier, seed, "model_checking", {"evaluations": 1, "distinct_nontrivial": 0, "states": 1, "transitions": 1,
                             "traces_validated_against_impl": 0, "samples": ["build failed"]}, time.time() - t0, violations=rep.n_violations())
@@ -323,6 +354,7 @@ def run(tier, seed):
     samples = []
     selftest_ok = 0
     nontriv = set()
+    classes = {}
     for name, _, _ in CONFIGS:
         cl = [[c["func"], [c["arg"]]] for c in cases[name]]
         obs = calls.run_calls(bmap[name], cl, prelude=L.PRELUDE + L.wrappers(), timeout=900, tag="conv")
@@ -334,25 +366,31 @@ def run(tier, seed):
                 witnessed.setdefault(name, set()).add(m["br"])
             if not (isinstance(c["arg"], int) and not isinstance(c["arg"], bool) and abs(c["arg"]) <= 1):
                 nontriv.add((name, c["func"], json.dumps(c["arg"], sort_keys=True)))
-            if o == c["want"]:
+            verdict = judge(c["want"], o)
+            if verdict is None:
                 if m and m["deviates"]:
                     predicted_not_observed += 1
                 # binding demonstration: a corrupted expectation must be rejected
-                if isinstance(c["want"], int) and selftest_ok < 200:
-                    if o == c["want"] + 1:
-                        core.die("binding self-test failed")
+                if selftest_ok < 3000 and rng.random() < 0.05:
+                    if judge(corrupt(c["want"]), o) is None:
+                        core.die("binding self-test failed: %r accepted for %r" % (corrupt(c["want"]), o))
                     selftest_ok += 1
                 continue
             if m and m["deviates"]:
                 predicted_confirmed += 1
             elif m:
                 unpredicted += 1
-            rep.disagree(c["desc"], obs_class(c["want"], o),
+            d = c["desc"]
+            k = "%s|%s|%s|%s|%s|expect=%s|%s|above_signed_max=%s" % (name, d["part"], d["from_py"], d["to_py"], d.get("source_kind"), d["expect"],
+                                                                     verdict, d["above_signed_max"])
+            classes[k] = classes.get(k, 0) + 1
+            rep.disagree(c["desc"], verdict,
                          {"config": name, "call": [c["func"], c["arg"]], "want": c["want"], "got": o, "expected_from": c["src"], "model": m})
         idx = rng.sample(range(len(cl)), 2)
         samples += [{"config": name, "call": cl[i], "want": cases[name][i]["want"], "got": obs[i], "model": cases[name][i]["model"]} for i in idx]
     if selftest_ok < 50:
         core.die("binding self-test: too few value cases (%d)" % selftest_ok)
+    finish_tlc()
 
     pub_branches = sorted({r["br"] for r in pub})
     cov.update({
@@ -369,6 +407,7 @@ def run(tier, seed):
         "model_predicted_deviations_not_observed": predicted_not_observed,
         "disagreements_on_cases_the_model_calls_conforming": unpredicted,
         "binding_selftest_cases": selftest_ok,
+        "disagreement_classes": classes,
         "rule": "every published case of the S=7 image (22 C integer types x symbolic value forms x object kinds) + seeded random / wide witnesses, "
                 "x {argument, assignment, C->Python} x 3 builds; non-trivial = distinct (build, function, argument) whose argument is not a plain int in [-1, 1]",
         "samples": samples,
